@@ -140,6 +140,7 @@ type zzHist struct {
 	instances bool   // label and sources depend on the call variable T
 	inst      string // value of T in this step
 	killAt    string // probe during which the process of this step is killed ("" = not killed)
+	twoGen      bool // a second generates entry (out2), written together with the first
 	hasStatus   bool // the task also has a status: command
 	statusFails bool // ... which fails in this step
 	exit      map[string]uint8
@@ -172,6 +173,9 @@ func (h *zzHist) taskfile() *ast.Taskfile {
 	}
 	if h.hasGen {
 		t.Generates = []*ast.Glob{{Glob: "out"}}
+		if h.twoGen {
+			t.Generates = append(t.Generates, &ast.Glob{Glob: "out2"})
+		}
 	}
 	if h.hasPrompt {
 		t.Prompt = []string{"sure?"}
@@ -250,6 +254,9 @@ func (h *zzHist) cmdText(k int, last bool) string {
 		}
 		if last && h.hasGen {
 			s += "echo built > out; "
+			if h.twoGen {
+				s += "echo built > out2; "
+			}
 		}
 		return s + fmt.Sprintf("echo F:%s:0", id)
 	}
@@ -296,6 +303,9 @@ func (h *zzHist) shell(ctx context.Context, opts *execext.RunCommandOptions) err
 	}
 	if f[2] == "1" {
 		zzWriteFileQuiet("out", "built")
+		if h.twoGen {
+			zzWriteFileQuiet("out2", "built")
+		}
 	}
 	zz.Emit("F", id, 0)
 	return nil
@@ -456,10 +466,14 @@ func ZZ_H_History() {
 	focusKill := zz.Param("kill_history", 0) == 1 || zz.Param("slim", 0) == 1
 	h.hasPrompt = zz.Param("sibling_history", 0) == 0 && !focusKill && zz.Bool("has_prompt")
 	h.hasGen = zz.Bool("has_generates")
+	if zz.Param("gen_history", 0) == 1 { // focused history: two generates entries, either may go missing
+		zz.Assume(h.hasGen)
+		h.twoGen = true
+	}
 	h.twoCmds = zz.Param("two_cmds", 0) == 1 && zz.Bool("two_cmds")
 	h.methodOnTask = prop != 12 && !focusKill && zz.Bool("method_set_on_task")
 	h.reinclude = (prop == 5 || prop == 4) && !focusKill && zz.Bool("sources_reinclude_excluded_file")
-	h.nestedGuard = prop == 12 && zz.Bool("nested_call_with_failing_guard")
+	h.nestedGuard = prop == 12 && !focusKill && zz.Bool("nested_call_with_failing_guard")
 	h.hasStatus = zz.Param("status_history", 0) == 1 // focused history: the task also has a status: command
 	zzPreFail = true
 	h.p.put("a.src", "v0")
@@ -493,6 +507,13 @@ func ZZ_H_History() {
 			case 4:
 				if h.hasGen && h.p.exists("out") {
 					h.p.remove("out")
+				}
+				if h.twoGen && zz.Bool(fmt.Sprintf("remove_second_generated_file_instead%d", k)) {
+					// (the first one was just removed: put it back, remove the other)
+					h.p.put("out", "built")
+					if h.p.exists("out2") {
+						h.p.remove("out2")
+					}
 				}
 			case 5: // an excluded file changes (unless a later sources entry re-includes it)
 				h.p.put("skip.src", fmt.Sprintf("s%d", k))
@@ -543,8 +564,17 @@ func ZZ_H_History() {
 		} else if mode == zzModeSibling {
 			zz.Assume(false) // covered by the focused history (registered separately)
 		}
-		if h.hasStatus {
+		if h.hasStatus || h.twoGen {
 			zz.Assume(mode != zzModeForce) // forced runs are the subject of the plain histories
+		}
+		if zz.Param("query_history", 0) == 1 {
+			// focused history: run; file operation; read-only invocation; run
+			switch k {
+			case 1:
+				zz.Assume(mode == zzModeDry || mode == zzModeStatus || mode == zzModeListJSON || mode == zzModeSummary)
+			default:
+				zz.Assume(mode == zzModeRun)
+			}
 		}
 		if mode == zzModeRun || mode == zzModeForce {
 			failCmd = zz.Choose(fmt.Sprintf("fail%d", k), nfail) - 1
@@ -567,10 +597,10 @@ func ZZ_H_History() {
 			}
 		}
 		h.target = "build"
-		if prop == 12 && mode == zzModeDry && zz.Bool(fmt.Sprintf("dry_target_has_missing_dir%d", k)) {
+		if prop == 12 && mode == zzModeDry && !focusKill && zz.Bool(fmt.Sprintf("dry_target_has_missing_dir%d", k)) {
 			h.target = "indir"
 		}
-		allowedSkip := okVersion == version && (!h.hasGen || h.p.exists("out"))
+		allowedSkip := okVersion == version && (!h.hasGen || h.p.exists("out")) && (!h.twoGen || h.p.exists("out2"))
 		r := h.step(k, mode, yes, failCmd)
 		tag := fmt.Sprintf("%s/%s", h.method, zzModeNames[mode])
 		switch mode {
